@@ -639,7 +639,10 @@ def proj_eq(a, b):
 
 def mkjoin(terms):
     flat = []
-    for t in terms:
+    live = [t for t in terms if t != ("never",)]
+    if not live:
+        return ("never",)
+    for t in live:
         if t[0] == "join":
             for x in t[1]:
                 if x not in flat:
@@ -680,15 +683,15 @@ def project_field(t, name):
             if inner[0] == "poll" and v == "Ready":
                 return ("await", inner[1])
             if inner[0] == "branch" and v == "Continue":
-                return ("ok", inner[1])
+                return wrap_payload("ok", inner[1])
             if inner[0] == "branch" and v == "Break":
-                return ("err", inner[1])
+                return wrap_payload("err", inner[1])
             if v == "Ok":
-                return ("ok", inner)
+                return wrap_payload("ok", inner)
             if v == "Err":
-                return ("err", inner)
+                return wrap_payload("err", inner)
             if v == "Some":
-                return ("some", inner)
+                return wrap_payload("some", inner)
             if inner[0] == "agg" and inner[2] == v:
                 for f, o in inner[3]:
                     if f == name:
@@ -696,6 +699,26 @@ def project_field(t, name):
     if t[0] == "join":
         return mkjoin([project_field(x, name) for x in t[1]])
     return ("field", t, name)
+
+
+_PAYLOAD_OF = {"ok": "Ok", "err": "Err", "some": "Some"}
+
+
+def wrap_payload(kind, t):
+    """payload of the Ok / Err / Some variant of t; folds through an aggregate that built t
+    (`Ok(x)` -> x) and drops join members built as the other variant (they cannot be
+    downcast): ("never",) if no member can"""
+    if t[0] == "join":
+        return mkjoin([wrap_payload(kind, x) for x in t[1]])
+    if t[0] == "agg" and t[2] in ("Ok", "Err", "Some", "None") and t[1] in ("std::result::Result", "std::option::Option"):
+        if t[2] == _PAYLOAD_OF[kind]:
+            for f, o in t[3]:
+                if f == "0":
+                    return o
+        return ("never",)
+    if t[0] == "never":
+        return t
+    return (kind, t)
 
 
 WRAPPERS = ("await", "ok", "some", "cast")
@@ -787,4 +810,4 @@ def subterms(t):
 
 
 TAGS = {"param", "field", "const", "lit", "litrepr", "fn", "call", "bin", "un", "len", "await", "ok", "err", "some", "poll", "disc",
-        "branch", "cast", "variant", "index", "subslice", "join", "agg", "closure", "repeat", "undef", "cycle", "deep", "unknown", "resume"}
+        "branch", "cast", "variant", "index", "subslice", "join", "agg", "closure", "repeat", "undef", "cycle", "deep", "unknown", "resume", "never"}
